@@ -1,6 +1,14 @@
 // stack_sim - link layer configurations, glue and plan generation for the whole-peripheral world (see stack_world.hpp)
+//
+// Compiled five times (-DSTACK_PART=0..4, see Makefile) so that the twelve link layer instantiations build in parallel:
+// part 0: configurations 0-2 + harness and main, 1: 3-4, 2: 5-6 (encryption), 3: 7-9, 4: 10-11 (real nRF52 front end)
+#ifndef STACK_PART
+#define STACK_PART 0
+#endif
 #include "stack_world.hpp"
+#if STACK_PART >= 3
 #include "nrf_bridge.hpp"
+#endif
 
 #include <bluetoe/server.hpp>
 #include <bluetoe/link_layer.hpp>
@@ -135,6 +143,7 @@ using ll4 = ll::link_layer< gatt_server, stack::sim_radio,
     ll::white_list< 2 >,
     ll::advertising_interval< 50 > >;
 
+#if STACK_PART >= 3
 // configurations 0..4 on the real nRF52 radio front end (harness/nrf_bridge.hpp)
 using ll0n = ll::link_layer< gatt_server, stack::nrf_bridge_radio,
     ll::connection_callbacks< stack::callback_recorder, recorder > >;
@@ -170,6 +179,7 @@ using ll4n = ll::link_layer< gatt_server, stack::nrf_bridge_radio,
     ll::non_connectable_undirected_advertising,
     ll::white_list< 2 >,
     ll::advertising_interval< 50 > >;
+#endif
 
 // link encryption: legacy security manager, bond data base, small buffers and latency
 using ll5 = ll::link_layer< gatt_server_enc, sim_radio_enc,
@@ -231,7 +241,9 @@ template < class LL > bool app_change_adv( LL& l, std::int64_t type, std::int64_
 template < class LL > bool app_change_adv( LL&, std::int64_t, std::int64_t, std::false_type ) { return false; }
 
 template < class LL, bool RealFront > struct link_holder { std::unique_ptr< LL > link{ new LL }; };
+#if STACK_PART >= 3
 template < class LL > struct link_holder< LL, true > { stack::zeroed< LL > link; };
+#endif
 
 template < class LL, bool WhiteList, bool VarMap, bool NoAutoStart, bool MultiAdv = false, bool Encryption = false, bool RealFront = false >
 void run_config( const sim::Plan& plan, sim::Result& res, unsigned latency_features, unsigned sca, unsigned adv_interval, unsigned wl_size, unsigned rx, unsigned tx )
@@ -283,8 +295,72 @@ void run_config( const sim::Plan& plan, sim::Result& res, unsigned latency_featu
     res.nontrivial = w.adv_pdus >= 3 && ( w.connection_events >= 5 || plan.property == "C24" || plan.property == "C25" );
     if ( plan.property == "C28" ) res.nontrivial = w.enc_completed + w.enc_rejected > 0;
     stack::g_current_radio = nullptr;
+#if STACK_PART >= 3
     nrf_shim::wfi = nullptr;
+#endif
 }
+
+}   // namespace
+
+void run_stack_part_0( int c, const sim::Plan& plan, sim::Result& res );
+void run_stack_part_1( int c, const sim::Plan& plan, sim::Result& res );
+void run_stack_part_2( int c, const sim::Plan& plan, sim::Result& res );
+void run_stack_part_3( int c, const sim::Plan& plan, sim::Result& res );
+void run_stack_part_4( int c, const sim::Plan& plan, sim::Result& res );
+
+//                                              features: bit1 unack, bit2 rx-not-empty, bit3 tx-not-empty, bit4 rx-more-data, bit5 always (bit0: pending tx data)
+#if STACK_PART == 0
+void run_stack_part_0( int c, const sim::Plan& plan, sim::Result& res )
+{
+    switch ( c )
+    {
+    case 0: run_config< ll0, false, false, false >( plan, res, 1 | 2 | 4 | 8 | 16, 500, 100, 0, 61, 61 ); break;
+    case 1: run_config< ll1, true, true, false >( plan, res, 32, 100, 30, 3, 100, 100 ); break;
+    case 2: run_config< ll2, false, false, true >( plan, res, 1 | 16, 20, 20, 0, 61, 61 ); break;
+    }
+}
+#elif STACK_PART == 1
+void run_stack_part_1( int c, const sim::Plan& plan, sim::Result& res )
+{
+    switch ( c )
+    {
+    case 3: run_config< ll3, false, true, false >( plan, res, 4 | 2, 500, 1000, 0, 200, 61 ); break;
+    case 4: run_config< ll4, true, false, false, true >( plan, res, 1 | 2 | 4 | 8 | 16, 500, 50, 2, 61, 61 ); break;
+    }
+}
+#elif STACK_PART == 2
+void run_stack_part_2( int c, const sim::Plan& plan, sim::Result& res )
+{
+    switch ( c )
+    {
+    case 5: run_config< ll5, false, false, false, false, true >( plan, res, 1 | 2 | 4 | 8 | 16, 500, 40, 0, 61, 61 ); break;
+    case 6: run_config< ll6, false, false, false, false, true >( plan, res, 1 | 16, 500, 40, 0, 200, 61 ); break;
+    }
+}
+#elif STACK_PART == 3
+// the same link layers on the real nRF52 radio front end
+void run_stack_part_3( int c, const sim::Plan& plan, sim::Result& res )
+{
+    switch ( c )
+    {
+    case 7:  run_config< ll0n, false, false, false, false, false, true >( plan, res, 1 | 2 | 4 | 8 | 16, 500, 100, 0, 61, 61 ); break;
+    case 8:  run_config< ll1n, true, true, false, false, false, true >( plan, res, 32, 100, 30, 3, 100, 100 ); break;
+    case 9:  run_config< ll2n, false, false, true, false, false, true >( plan, res, 1 | 16, 20, 20, 0, 61, 61 ); break;
+    }
+}
+#else
+void run_stack_part_4( int c, const sim::Plan& plan, sim::Result& res )
+{
+    switch ( c )
+    {
+    case 10: run_config< ll3n, false, true, false, false, false, true >( plan, res, 4 | 2, 500, 1000, 0, 200, 61 ); break;
+    case 11: run_config< ll4n, true, false, false, true, false, true >( plan, res, 1 | 2 | 4 | 8 | 16, 500, 50, 2, 61, 61 ); break;
+    }
+}
+#endif
+
+#if STACK_PART == 0
+namespace {
 
 struct stack_harness : sim::Harness
 {
@@ -318,6 +394,7 @@ struct stack_harness : sim::Harness
         const int sel = static_cast< int >( rng.below( 5 ) );
         p.knobs[ "p_drift_ppm" ] = sel == 0 ? own_sca[ p.config ] : sel == 1 ? -own_sca[ p.config ] : sel == 2 ? 0 : rng.range( -own_sca[ p.config ], own_sca[ p.config ] );
         p.knobs[ "setup_margin_us" ] = rng.pick( std::vector< int >{ 100, 300, 300, 1000 } );
+        p.knobs[ "refuse_disarm" ] = rng.chance( 15 ) ? 1 : 0;      // the hardware never lets a scheduled event go (always "too close")
         const bool adv_focus = property == "C24" || property == "C25";
         const unsigned n_ops = static_cast< unsigned >( rng.range( 6, thorough ? 90 : 45 ) );
         bool connect_planned = false;
@@ -406,23 +483,11 @@ struct stack_harness : sim::Harness
     {
         const int c = ( ( plan.config % 12 ) + 12 ) % 12;
         res.note( "config %d", c );
-        switch ( c )
-        {
-        //                                              features: bit1 unack, bit2 rx-not-empty, bit3 tx-not-empty, bit4 rx-more-data, bit5 always (bit0: pending tx data)
-        case 0: run_config< ll0, false, false, false >( plan, res, 1 | 2 | 4 | 8 | 16, 500, 100, 0, 61, 61 ); break;
-        case 1: run_config< ll1, true, true, false >( plan, res, 32, 100, 30, 3, 100, 100 ); break;
-        case 2: run_config< ll2, false, false, true >( plan, res, 1 | 16, 20, 20, 0, 61, 61 ); break;
-        case 3: run_config< ll3, false, true, false >( plan, res, 4 | 2, 500, 1000, 0, 200, 61 ); break;
-        case 4: run_config< ll4, true, false, false, true >( plan, res, 1 | 2 | 4 | 8 | 16, 500, 50, 2, 61, 61 ); break;
-        case 5: run_config< ll5, false, false, false, false, true >( plan, res, 1 | 2 | 4 | 8 | 16, 500, 40, 0, 61, 61 ); break;
-        case 6: run_config< ll6, false, false, false, false, true >( plan, res, 1 | 16, 500, 40, 0, 200, 61 ); break;
-        // the same link layers on the real nRF52 radio front end
-        case 7:  run_config< ll0n, false, false, false, false, false, true >( plan, res, 1 | 2 | 4 | 8 | 16, 500, 100, 0, 61, 61 ); break;
-        case 8:  run_config< ll1n, true, true, false, false, false, true >( plan, res, 32, 100, 30, 3, 100, 100 ); break;
-        case 9:  run_config< ll2n, false, false, true, false, false, true >( plan, res, 1 | 16, 20, 20, 0, 61, 61 ); break;
-        case 10: run_config< ll3n, false, true, false, false, false, true >( plan, res, 4 | 2, 500, 1000, 0, 200, 61 ); break;
-        case 11: run_config< ll4n, true, false, false, true, false, true >( plan, res, 1 | 2 | 4 | 8 | 16, 500, 50, 2, 61, 61 ); break;
-        }
+        if ( c < 3 ) run_stack_part_0( c, plan, res );
+        else if ( c < 5 ) run_stack_part_1( c, plan, res );
+        else if ( c < 7 ) run_stack_part_2( c, plan, res );
+        else if ( c < 10 ) run_stack_part_3( c, plan, res );
+        else run_stack_part_4( c, plan, res );
     }
 
     std::vector< sim::Op > simplify( const sim::Plan& plan, std::size_t i ) const override
@@ -443,3 +508,4 @@ int main( int argc, char** argv )
     stack_harness h;
     return sim::sim_main( argc, argv, h );
 }
+#endif
